@@ -8,6 +8,8 @@ import (
 	"encoding/gob"
 	"encoding/hex"
 	"fmt"
+	"go/ast"
+	"go/parser"
 	"go/token"
 	"go/types"
 	"os"
@@ -99,8 +101,12 @@ type Options struct {
 	SanityCheck bool
 	Env         []string
 	Tests       bool
-	Sites       bool // include the site identities of InferredMap facts
-	Triggers    bool // include the full triggers of the assertion analyzer and the function contracts
+	// FileOrder, when "asc" or "desc", forces the order in which the module's own source files are registered in the
+	// token.FileSet (by file name, ascending or descending); go/packages parses files concurrently, so this order --
+	// and with it the relative order of token.Pos values of different files -- otherwise depends on scheduling.
+	FileOrder string
+	Sites     bool // include the site identities of InferredMap facts
+	Triggers  bool // include the full triggers of the assertion analyzer and the function contracts
 }
 
 // SetFlags sets (and resets to defaults first) the config analyzer flags.
@@ -136,6 +142,45 @@ func Run(o Options) (*Result, error) {
 	env := append(os.Environ(), "GOFLAGS=-mod=mod", "GOPROXY=off", "GOWORK=off")
 	env = append(env, o.Env...)
 	cfg := &packages.Config{Mode: packages.LoadAllSyntax, Dir: o.Dir, Env: env, Tests: o.Tests}
+	if o.FileOrder == "asc" || o.FileOrder == "desc" {
+		// list the files first, parse the module's own files one by one in the requested order into one FileSet,
+		// then load for real with a ParseFile hook that hands out the trees parsed here
+		pre, err := packages.Load(&packages.Config{Mode: packages.NeedName | packages.NeedFiles | packages.NeedCompiledGoFiles | packages.NeedImports | packages.NeedDeps, Dir: o.Dir, Env: env, Tests: o.Tests}, pats...)
+		if err != nil {
+			return nil, err
+		}
+		absRoot, _ := filepath.Abs(o.Dir)
+		seen := map[string]bool{}
+		var own []string
+		packages.Visit(pre, nil, func(p *packages.Package) {
+			for _, f := range p.CompiledGoFiles {
+				if strings.HasPrefix(f, absRoot+string(filepath.Separator)) && strings.HasSuffix(f, ".go") && !seen[f] {
+					seen[f] = true
+					own = append(own, f)
+				}
+			}
+		})
+		sort.Strings(own)
+		if o.FileOrder == "desc" {
+			for i, j := 0, len(own)-1; i < j; i, j = i+1, j-1 {
+				own[i], own[j] = own[j], own[i]
+			}
+		}
+		fset := token.NewFileSet()
+		parsed := map[string]*ast.File{}
+		for _, f := range own {
+			if af, err := parser.ParseFile(fset, f, nil, parser.AllErrors|parser.ParseComments); err == nil {
+				parsed[f] = af
+			}
+		}
+		cfg.Fset = fset
+		cfg.ParseFile = func(fs *token.FileSet, filename string, src []byte) (*ast.File, error) {
+			if af, ok := parsed[filename]; ok && fs == fset {
+				return af, nil
+			}
+			return parser.ParseFile(fs, filename, src, parser.AllErrors|parser.ParseComments)
+		}
+	}
 	pkgs, err := packages.Load(cfg, pats...)
 	if err != nil {
 		return nil, err
